@@ -47,7 +47,10 @@ def main():
     except BaseException as ex:
         if isinstance(ex, KeyboardInterrupt):
             raise
-        res = dict(harness_error=traceback.format_exc()[-3000:],
+        tb = traceback.format_exception(type(ex), ex, ex.__traceback__)
+        tb = ''.join(tb)
+        head = '%s: %s' % (type(ex).__name__, str(ex)[:600])
+        res = dict(harness_error=head + '\n' + tb[:2500],
                    failures=[], evaluations=0)
     tmp = outf + '.tmp'
     with open(tmp, 'w') as fp:
